@@ -13,17 +13,19 @@ between any two callbacks that report events — "the application collects event
 `lc` per slot (life-cycle automaton `lcStep` run over the events taken for the slot:
 0 off, 1 online, 2 configured).
 -/
-import ProfiVerif.Lemmas.Dp14
+import ProfiVerif.Lemmas.Dp14Turns
 
 namespace PV.C14
 open PV PV.Dp
 
+/-- Every state a contract history reaches — with `reset_address()` at any point — satisfies the
+invariants the step theorems assume. -/
 theorem reachable {fp : FdlParams} (hfp : FpOk fp) {slots : List (Option Peripheral)}
     (hinit : InitOk fp slots) (gr : Bool) (ops : List Op) :
-    ∀ {g : G}, grun fp (G.init slots gr) ops = .ok g → Inv fp g ∧ (g.tainted = false → Inv14 g) := by
-  suffices H : ∀ (ops : List Op) (g0 : G), Inv fp g0 → (g0.tainted = false → Inv14 g0) →
-      ∀ g, grun fp g0 ops = .ok g → Inv fp g ∧ (g.tainted = false → Inv14 g) by
-    intro g h; exact H ops _ (inv_init hinit gr) (fun _ => inv14_init hinit gr) g h
+    ∀ {g : G}, grun fp (G.init slots gr) ops = .ok g → Inv fp g ∧ Inv14 g := by
+  suffices H : ∀ (ops : List Op) (g0 : G), Inv fp g0 → Inv14 g0 →
+      ∀ g, grun fp g0 ops = .ok g → Inv fp g ∧ Inv14 g by
+    intro g h; exact H ops _ (inv_init hinit gr) (inv14_init hinit gr) g h
   intro ops
   induction ops with
   | nil => intro g0 h1 h2 g h; simp only [grun, Res3.ok.injEq] at h; subst h; exact ⟨h1, h2⟩
@@ -33,7 +35,7 @@ theorem reachable {fp : FdlParams} (hfp : FpOk fp) {slots : List (Option Periphe
     cases hs : gstep fp g0 op with
     | ok g1 =>
       rw [hs] at h
-      exact ih g1 (inv_step hfp h1 op hs) (fun hu => inv14_step hfp h1 (h2 (tainted_mono op hs hu)) op hs hu) g h
+      exact ih g1 (inv_step hfp h1 op hs) (inv14_step hfp h1 h2 op hs) g h
     | panic => rw [hs] at h; cases h
     | hang => rw [hs] at h; cases h
     | refused => rw [hs] at h; cases h
@@ -186,7 +188,7 @@ theorem one_event_per_callback {fp : FdlParams} (hfp : FpOk fp) {g g' : G} (hI :
       refine ⟨_, rfl, ?_⟩
       simp only [G.polled, afterDecline]; cases nextSlot m1.slots index <;> rfl
   | reply a t =>
-    rcases reply_cases hI h with ⟨index, i, p, p', ev, _, _, _, _, _, _, rfl⟩ | ⟨_, _, _, _, _, _, _, _, rfl⟩
+    rcases reply_cases hI h with ⟨index, i, p, p', ev, _, _, _, _, _, _, rfl⟩ | ⟨_, _, _, _, _, _, _, rfl⟩
     · cases ev with
       | none => left; simp
       | some e => right; exact ⟨_, rfl, rfl⟩
@@ -218,12 +220,15 @@ theorem one_event_per_callback {fp : FdlParams} (hfp : FpOk fp) {g g' : G} (hI :
 /-- `lifecycle`: with collection after every poll, every event `take_last_events` hands out is
 accepted by the life-cycle automaton of its peripheral (Online only while off; Configured,
 DataExchanged, Diagnostics only after Online / Configured; Offline, ParameterError, ConfigError only
-while live), and it names an occupied slot. -/
-theorem lifecycle_event {g : G} (h4 : Inv14 g) (hc : g.collected = true)
+while live), and it names an occupied slot — unless it is a stale event: one that was produced for an
+incarnation of the peripheral which `reset_address()` has replaced since (`staleEv`; such an event is
+handed out once, by the next `take_last_events`, and is not counted). -/
+theorem lifecycle_event {g : G} (h4 : Inv14 g) (hc : g.collected = true) (hs : g.staleEv = false)
     {he : HEvent} (hev : g.m.lastEvents.peripheral = some he)
     {p : Peripheral} (hp : g.m.slots[he.index]? = some (some p)) :
     ∃ v, lcStep (g.sg he.index).lc he.ev = some v := by
   obtain ⟨v, hv, _⟩ := h4.lc hc he.index p hp
+  rw [lcNow_fresh hs] at hv
   simp only [lcEff, hev, if_true] at hv
   exact ⟨v, hv⟩
 
@@ -233,7 +238,7 @@ theorem lifecycle_accessors {g : G} (h4 : Inv14 g) (hc : g.collected = true) (hd
     {i : Nat} {p : Peripheral} (hp : g.m.slots[i]? = some (some p)) :
     (p.isLive = true ↔ (g.sg i).lc ≠ 0) ∧ (p.isRunning = true → (g.sg i).lc = 2) ∧ (g.sg i).lc ≤ 2 := by
   obtain ⟨v, hv, hok⟩ := h4.lc hc i p hp
-  rw [lcEff_none (h4.clean hd)] at hv
+  rw [lcNow_none (h4.clean hd)] at hv
   simp only [Option.some.injEq] at hv
   subst hv
   refine ⟨?_, ?_, hok.le⟩
@@ -251,8 +256,8 @@ how the index moves: within one poll through consecutive occupied slots (`turn_o
 end of a poll / on a reply to the *next* occupied slot or — exactly when none follows — back to the
 start together with the `cycle_completed` report (`cycle_completed_poll`, `cycle_completed_reply`,
 `next_is_next_occupied`).  So between two `cycle_completed` reports the index passes every occupied
-slot once, in slot order; the composition of these step facts into a statement about whole histories
-is not formalised (see `not_proved`); the oracle checks it on every trace. -/
+slot once, in slot order: `turn_order` / `cycle_completed_once` below state that for whole histories
+(bookkeeping `Turns` / `trun` of `Lemmas/Dp14Turns.lean`). -/
 
 /-- `turn_order` within one poll: starting with the cycle index at the occupied slot `o`, the loop
 invokes `Peripheral::transmit_telegram` on exactly the occupied slots from `o` up to the slot `e`
@@ -285,14 +290,17 @@ theorem cycle_completed_poll (m1 : Master) (index1 e : Nat) (pe p' : Peripheral)
 
 /-- `cycle_completed_once`, reply side: a reply ends the turn of the addressed peripheral; the index
 moves to the next occupied slot, or — exactly when none follows — the cycle is completed and reported. -/
-theorem cycle_completed_reply {fp : FdlParams} {g g' : G} (hI : Inv fp g) (hu : g.tainted = false)
+theorem cycle_completed_reply {fp : FdlParams} {g g' : G} (hI : Inv fp g)
     {a : UInt8} {t : Telegram} (h : gstep fp g (.reply a t) = .ok g') :
+    -- a stale reply (`reset_address()` while the request was in flight) moves nothing
+    (g'.m = g.m ∧ g'.o = .ignored) ∨
     ∃ index i p, g.m.cycle = .dx index ∧ curSlot g.m.slots index = some (i, p) ∧ p.address = a ∧
       (g'.m.lastEvents.cycleCompleted = true ↔ nextSlot g.m.slots index = none) ∧
       (nextSlot g.m.slots index = none → g'.m.cycle = .completed) ∧
       (∀ n, nextSlot g.m.slots index = some n → g'.m.cycle = .dx n) := by
-  obtain ⟨index, i, p, p', ev, _, hcy, hc, hpa, _, _, rfl⟩ := reply_form hI hu h
-  exact ⟨index, i, p, hcy, hc, hpa, afterReply_cycle g.m index i p p' ev⟩
+  rcases reply_cases hI h with ⟨index, i, p, p', ev, _, hcy, hc, hpa, _, _, rfl⟩ | ⟨_, _, _, _, _, _, _, rfl⟩
+  · exact .inr ⟨index, i, p, hcy, hc, hpa, afterReply_cycle g.m index i p p' ev⟩
+  · exact .inl ⟨rfl, rfl⟩
 
 /-- The slot the index moves to is the *next* occupied one (nothing occupied in between), and
 "none follows" means no later slot is occupied. -/
@@ -302,6 +310,62 @@ theorem next_is_next_occupied {slots : List (Option Peripheral)} {index i : Nat}
       i < n ∧ occupied slots n = true ∧ ∀ k, i < k → k < n → occupied slots k = false) ∧
     (nextSlot slots index = none → ∀ k, i < k → occupied slots k = false) :=
   ⟨fun _ hn => nextSlot_is_next hc hn, fun hn => nextSlot_none_last hc hn⟩
+
+
+/-! ### Turn order over whole histories
+
+`Lemmas/Dp14Turns.lean`: a *visit* is one invocation of `Peripheral::transmit_telegram` by the loop of
+the master's `transmit_telegram` (`visits` lists the slots of one call, mirroring the loop); a *turn*
+is a maximal run of consecutive visits of the same slot within a pass (a request and its
+retransmissions); a *pass* ends with a callback that reports `cycle_completed` (`reported`).  `trun`
+runs a history like `grun` and keeps the turns of the current pass and the completed passes. -/
+
+/-- The bookkeeping run exists for every contract history (it only adds observations). -/
+theorem turns_total (fp : FdlParams) (slots : List (Option Peripheral)) (gr : Bool) (ops : List Op) {g : G}
+    (h : grun fp (G.init slots gr) ops = .ok g) : ∃ t, trun fp (G.init slots gr) {} ops = .ok (g, t) :=
+  trun_of_grun fp ops _ _ g h
+
+/-- **`turn_order`** (whole histories).  After every history the FDL contract allows — any replies and
+time-outs, polls at any time (also while a request is outstanding), user calls incl.
+`reset_address()` at any point, any number of peripherals in arbitrary sparse storage:
+
+* every completed pass (the turns between two consecutive `cycle_completed` reports, and before the
+  first) consists of exactly the occupied slots, each once, in ascending slot order;
+* the occupied slots never change;
+* the current pass is the ascending list of the occupied slots before the slot `o` under the cycle
+  index, followed by `o` itself once its turn has begun (certainly while its request is outstanding);
+  it is empty right after a report. -/
+theorem turn_order {fp : FdlParams} (hfp : FpOk fp) {slots : List (Option Peripheral)} (hinit : InitOk fp slots)
+    (gr : Bool) (ops : List Op) {g : G} {t : Turns} (h : trun fp (G.init slots gr) {} ops = .ok (g, t)) :
+    (∀ P ∈ t.done, P.reverse = occAll slots) ∧ occAll g.m.slots = occAll slots ∧
+    (g.m.cycle = .completed → t.pass = []) ∧
+    (∀ index, g.m.cycle = .dx index → curSlot g.m.slots index = none → t.pass = []) ∧
+    (∀ index o p, g.m.cycle = .dx index → curSlot g.m.slots index = some (o, p) →
+      (t.pass.reverse = occIn g.m.slots 0 o ∨ t.pass.reverse = occIn g.m.slots 0 (o + 1)) ∧
+      (g.out.isSome = true → t.pass.reverse = occIn g.m.slots 0 (o + 1))) := by
+  have hT := tinv_run hfp ops _ _ g t (inv_init hinit gr) (tinv_init slots gr) h
+  refine ⟨?_, hT.occ, hT.open_.compl, hT.open_.none_, ?_⟩
+  · intro P hP
+    rw [hT.done P hP, List.reverse_reverse, hT.occ]
+  · intro index o p hcy hc
+    obtain ⟨h1, h2⟩ := hT.open_.some_ index o p hcy hc
+    refine ⟨?_, fun ho => by rw [h2 ho, List.reverse_reverse]⟩
+    rcases h1 with h1 | h1
+    · left; rw [h1, List.reverse_reverse]
+    · right; rw [h1, List.reverse_reverse]
+
+/-- **`cycle_completed_once`** (whole histories).  There are exactly as many completed passes as
+`cycle_completed` reports (a pass is closed by a report and by nothing else), and in every completed
+pass every occupied slot has exactly one turn and no other slot has any: between two consecutive
+reports each configured peripheral gets its turn once. -/
+theorem cycle_completed_once {fp : FdlParams} (hfp : FpOk fp) {slots : List (Option Peripheral)} (hinit : InitOk fp slots)
+    (gr : Bool) (ops : List Op) {g : G} {t : Turns} (h : trun fp (G.init slots gr) {} ops = .ok (g, t)) :
+    t.done.length = reports fp (G.init slots gr) ops ∧
+    ∀ P ∈ t.done, ∀ j, P.count j = if occupied slots j = true then 1 else 0 := by
+  refine ⟨by simpa using done_length fp ops _ _ g t h, ?_⟩
+  intro P hP j
+  have := (turn_order hfp hinit gr ops h).1 P hP
+  rw [← List.count_reverse, this, count_occAll]
 
 /-! ### Non-vacuity -/
 
@@ -320,5 +384,41 @@ def exCheck : Bool :=
    | _ => false)
 
 example : exCheck = true := by decide +kernel
+
+/-- Turn bookkeeping on concrete histories: one peripheral in slot 1 of `[none, some _]` — the bring-up
+history completes several passes, each consisting of slot 1 alone; three peripherals in sparse storage,
+none answering: every pass is `[0, 2, 3]` ascending (stored newest first). -/
+def turnsCheck : Bool :=
+  (match trun Ex.fp (G.init Ex.slots false) {} Ex.bringUp with
+   | .ok (_, t) => t.done.length ≥ 4 && t.done.all (· == [1]) && t.done.length == reports Ex.fp (G.init Ex.slots false) Ex.bringUp
+   | _ => false) &&
+  (match trun Ex.fp (G.init [some Ex.p7, none, some Ex.p7, some Ex.p7] false) {}
+      [.tx 1000 false, .tx 2000 false, .timeout 7, .tx 3000 false, .timeout 7, .tx 4000 false, .timeout 7,
+       .tx 5000 false, .tx 6000 false, .tx 7000 false] with
+   | .ok (_, t) => t.done.length ≥ 1 && t.done.all (· == [3, 2, 0])
+   | _ => false)
+
+example : turnsCheck = true := by decide +kernel
+
+/-- `reset_address()` while the peripheral's event is still uncollected: the stale Online event of the
+old incarnation is handed out by the next `take_last_events` but not counted (`staleEv`); the fresh
+peripheral at the new address then comes Online as usual and the life-cycle automaton accepts its
+events — `Inv14` (from `reachable`) holds throughout. -/
+def staleCheck : Bool :=
+  let diag9 : Telegram := .data ⟨2, 9, some 62, some 60, .response .slave .dataLow⟩ [0x02, 0x05, 0, 2, 0x80, 0xb1]
+  let pre : List Op := [.tx 1000 false, .take, .tx 2000 false, .take, .reply 7 (Ex.diagReply 0x02 0x05), .resetAddr 1 9]
+  (match grun Ex.fp (G.init Ex.slots false) pre with
+   | .ok g => g.staleEv && g.collected && g.m.lastEvents.peripheral.isSome && (g.sg 1).lc == 0
+   | _ => false) &&
+  (match grun Ex.fp (G.init Ex.slots false) (pre ++ [.take]) with
+   | .ok g => !g.staleEv && g.collected && (g.sg 1).lc == 0 &&
+       g.taken == [{ index := 1, address := 7, ev := .online }]
+   | _ => false) &&
+  (match grun Ex.fp (G.init Ex.slots false) (pre ++ [.take, .tx 3000 false, .take, .tx 4000 false, .take, .reply 9 diag9, .take]) with
+   | .ok g => !g.staleEv && g.collected && (g.sg 1).lc == 1 && g.produced == g.taken &&
+       g.taken == [{ index := 1, address := 7, ev := .online }, { index := 1, address := 9, ev := .online }]
+   | _ => false)
+
+example : staleCheck = true := by decide +kernel
 
 end PV.C14
